@@ -384,8 +384,10 @@ class ComponentLevel2( ComponentLevel1 ):
           stk    = [ call ] # for error message
           dfs( call, stk )
 
-        if nested_calls:
-          s._dsl.all_upblk_calls[ blk ] = calls | nested_calls
+        # Like the reads and writes of functions, the methods they call are
+        # added to the block's own set (shared between m and the top), so
+        # that replacing a component finds them there
+        calls |= nested_calls
 
   def _uncollect_vars( s, m ):
     super()._uncollect_vars( m )
